@@ -204,6 +204,7 @@ var relPool = []string{
 	"public.a", "public.b", "public.ab", "public.customers", "s2.a", "public.A",
 	`public."Quoted.Name"`, `"My Schema"."t,1"`, `"a""b".c`, "public.a, public.b", "public.b, s2.a, public.customers",
 	"", "public.\xc3\xa9t\xc3\xa9", "public.a_very_long_table_name_that_goes_on_and_on_and_on_0123456789",
+	"public.pg_temp_readings", "public.users, public.pg_temp_readings", "public.pg_toast_notes",
 }
 
 var plainExtra = []string{"a", "public", "public.", "PUBLIC.A", "public.a ", "public.b, public.a", "Quoted.Name", "", " "}
@@ -247,6 +248,8 @@ var printedPool = []string{
 	`public."Quoted.Name"`, `"My Schema"."t,1"`, `"a""b".c`, `public."audit: log"`, `"s: x".t`, `public."x: INSERT: y"`,
 	`public."tab[1]"`, `public."o'hara"`, `public."TRUNCATE"`, `public."table"`, `public."a, public.b"`,
 	"public.a_very_long_table_name_that_goes_on_and_on_and_on_0123456789",
+	// ordinary user tables whose names look like something internal (only SCHEMA names starting with pg_ are reserved)
+	"public.pg_temp_readings", "public.pg_toast_notes", "app.sql_features",
 }
 
 func genDecodedCase(rng *rand.Rand) fcase {
